@@ -315,6 +315,7 @@ def _flattenElement(
 
         if not root.tagName:
             yield keepGoing(root.children)
+            slotData.pop()
             return
 
         write(b"<")
@@ -346,6 +347,7 @@ def _flattenElement(
             write(b"</" + tagName + b">")
         else:
             write(b" />")
+        slotData.pop()
 
     elif isinstance(root, (tuple, list, GeneratorType)):
         for element in root:
